@@ -269,10 +269,18 @@ def repo_hash(extra=""):
 
 
 def _prune_cache(keep):
+    """drop cache entries not used for 3 hours (other checks may be using recent ones), keep at most 12"""
     try:
+        now = time.time()
         ents = sorted((os.path.getmtime(os.path.join(CACHE, d)), d) for d in os.listdir(CACHE) if d != keep and not d.endswith(".lock"))
-        for _, d in ents[:-2]:
+        old = [d for t, d in ents if now - t > 3 * 3600]
+        recent = [d for t, d in ents if now - t <= 3 * 3600]
+        for d in old + recent[:-12]:
             shutil.rmtree(os.path.join(CACHE, d), ignore_errors=True)
+            try:
+                os.unlink(os.path.join(CACHE, d + ".lock"))
+            except OSError:
+                pass
     except OSError:
         pass
 
